@@ -48,6 +48,7 @@ def rcLoop : RC → List String → List String → List String
       | ["new", i] => i.toNat?.map r.fresh
       | ["as", i, j] => do pure (r.assign (← i.toNat?) (← j.toNat?))
       | ["rs", i] => i.toNat?.map r.reset
+      | ["sw", i, j] => do pure (r.swap (← i.toNat?) (← j.toNat?))
       | _ => none
     match r' with
     | none => ("bad-op" :: acc).reverse
